@@ -99,6 +99,8 @@ def _fp(v, h):
         # opaque objects (functions, generators, locks, array-likes): identity-free marker
         h.update(b"O")
         h.update(type(v).__name__.encode())
+        if hasattr(v, "key") and not callable(v):
+            h.update(repr(getattr(v, "key", None)).encode())
         arr = getattr(v, "__array__", None)
         if arr is not None and not callable(v):
             try:
@@ -169,3 +171,63 @@ def execute(gg, ids, order, sources=(), fingerprints=True, watch=None):
         done.append(i)
         events.append({"k": i, "out": fingerprint(val) if fingerprints else "", "pre": pre, "post": post})
     return events, store
+
+
+# ------------------------------------------------------------------ Frisky records
+def export_records(records, outkeys):
+    """records: (key, func, args, kwargs, deps) with string keys -> (G, ids)"""
+    ids = {}
+
+    def kid(k):
+        k = str(k)
+        if k not in ids:
+            ids[k] = len(ids) + 1
+        return ids[k]
+
+    dup = 0          # keys defined twice with DIFFERENT content (identical duplicates are harmless)
+    seen = {}
+    for r in records:
+        sig = (getattr(r[1], "__name__", repr(r[1])), fingerprint([r[2], r[3]]), tuple(sorted(map(str, r[4]))))
+        if str(r[0]) in seen and seen[str(r[0])] != sig:
+            dup += 1
+        seen.setdefault(str(r[0]), sig)
+        kid(r[0])
+    deps = {}
+    for r in records:
+        # a key defined by several records (a pinned alias and the raw task of the same name): the first one is used,
+        # here and in execute_records
+        deps.setdefault(ids[str(r[0])], sorted(kid(d) for d in r[4]))
+    outs = [kid(k) for k in outkeys]
+    n = len(ids)
+    G = {"n": n, "defd": sorted({ids[str(r[0])] for r in records}), "deps": [deps.get(j, []) for j in range(1, n + 1)], "outs": outs}
+    return G, ids, dup
+
+
+def execute_records(records, G, ids):
+    """run the records in a topological order with a plain in-process executor; -> store (key string -> value)"""
+    from dask._task_spec import TaskRef
+
+    by_key = {}
+    for r in records:
+        by_key.setdefault(str(r[0]), r)
+    by_id = {i: k for k, i in ids.items()}
+    order = topo_orders(G, how_many=1)
+    if not order:
+        raise RuntimeError("records graph is not executable (dangling dependency or cycle)")
+    store = {}
+
+    def res(a):
+        if isinstance(a, TaskRef):
+            return store[str(a.key)]
+        if isinstance(a, list):
+            return [res(x) for x in a]
+        if isinstance(a, tuple):
+            return tuple(res(x) for x in a)
+        if isinstance(a, dict):
+            return {k: res(v) for k, v in a.items()}
+        return a
+
+    for i in order[0]:
+        key, func, args, kwargs, _ = by_key[by_id[i]]
+        store[str(key)] = func(*[res(a) for a in args], **{k: res(v) for k, v in (kwargs or {}).items()})
+    return store
